@@ -12,8 +12,6 @@ package handler
 
 //@ define HandlerInv(h) = isUTC(h.startOfGPSWeek.loc) && isUTC(h.startOfGalileoWeek.loc) && isUTC(h.startOfGlonassWeek.loc) && isUTC(h.startOfBeidouWeek.loc)
 
-//@ type Handler
-//@ invariant HandlerInv(self)
 
 //@ func CheckCRC
 //@ ensures[C01,C03,C12] (result == nil) == (len(frame) >= 6 && crcok(frame))
@@ -29,6 +27,43 @@ package handler
 //@ func (*Handler).GetMessage
 //@ requires[C07] rtcmHandler != nil
 //@ modifies rtcmHandler
+//@ ghostparam T Int
+//@ ghostparam uG Int
+//@ ghostparam sG Bool
+//@ ghostparam uE Int
+//@ ghostparam sE Bool
+//@ ghostparam uB Int
+//@ ghostparam sB Bool
+//@ ghostparam uR Int
+//@ ghostparam sR Bool
+//@ ghostparam u2 Int
+//@ let h0 = *rtcmHandler
+//@ let lay = utils.DateLayout
+//@ requires[C06,C17] TimeInvW(h0.startOfGPSWeek, h0.timestampFromPreviousGPSMessage, KGPS, T, uG, sG) && TimeInvW(h0.startOfGalileoWeek, h0.timestampFromPreviousGalileoMessage, KGPS, T, uE, sE)
+//@ requires[C06,C17] TimeInvW(h0.startOfBeidouWeek, h0.timestampFromPreviousBeidouMessage, KBDS, T, uB, sB) && TimeInvR(h0.startOfGlonassWeek, h0.glonassDayFromPreviousMessage, T, uR, sR)
+//@ requires[C06] FirstC06(h0.timestampFromPreviousGPSMessage, KGPS, T, sG) && FirstC06(h0.timestampFromPreviousGalileoMessage, KGPS, T, sE) && FirstC06(h0.timestampFromPreviousBeidouMessage, KBDS, T, sB)
+//@ requires[C17] FirstC17(h0.timestampFromPreviousGPSMessage, sG) && FirstC17(h0.timestampFromPreviousGalileoMessage, sE) && FirstC17(h0.timestampFromPreviousBeidouMessage, sB)
+//@ ensures[C06,C17] r0 != nil && isMSM(r0.MessageType) ==> r0.Timestamp == bits(r0.RawData, 48, 30) || r0.SentAt == ""
+// GPS
+//@ ensures[C06] r0 != nil && r0.SentAt != "" && (r0.MessageType == 1074 || r0.MessageType == 1077) && r0.Timestamp <= 604799999 && r0.Timestamp == code(u2, KGPS) && wholeMs(u2, KGPS) && StepC06(uG, sG, u2, T, KGPS) ==> GoodW(rtcmHandler.startOfGPSWeek, rtcmHandler.timestampFromPreviousGPSMessage, KGPS, T, u2, r0.Timestamp, r1, r0.SentAt, r0.StartOfWeek, "GPS", h0.startOfGPSWeek.loc, lay)
+//@ ensures[C17] r0 != nil && r0.SentAt != "" && (r0.MessageType == 1074 || r0.MessageType == 1077) && r0.Timestamp <= 604799999 && r0.Timestamp == code(u2, KGPS) && wholeMs(u2, KGPS) && StepC17(uG, sG, u2, T, KGPS) ==> GoodW(rtcmHandler.startOfGPSWeek, rtcmHandler.timestampFromPreviousGPSMessage, KGPS, T, u2, r0.Timestamp, r1, r0.SentAt, r0.StartOfWeek, "GPS", h0.startOfGPSWeek.loc, lay)
+// Galileo
+//@ ensures[C06] r0 != nil && r0.SentAt != "" && (r0.MessageType == 1094 || r0.MessageType == 1097) && r0.Timestamp <= 604799999 && r0.Timestamp == code(u2, KGPS) && wholeMs(u2, KGPS) && StepC06(uE, sE, u2, T, KGPS) ==> GoodW(rtcmHandler.startOfGalileoWeek, rtcmHandler.timestampFromPreviousGalileoMessage, KGPS, T, u2, r0.Timestamp, r1, r0.SentAt, r0.StartOfWeek, "Galileo", h0.startOfGalileoWeek.loc, lay)
+//@ ensures[C17] r0 != nil && r0.SentAt != "" && (r0.MessageType == 1094 || r0.MessageType == 1097) && r0.Timestamp <= 604799999 && r0.Timestamp == code(u2, KGPS) && wholeMs(u2, KGPS) && StepC17(uE, sE, u2, T, KGPS) ==> GoodW(rtcmHandler.startOfGalileoWeek, rtcmHandler.timestampFromPreviousGalileoMessage, KGPS, T, u2, r0.Timestamp, r1, r0.SentAt, r0.StartOfWeek, "Galileo", h0.startOfGalileoWeek.loc, lay)
+// BeiDou
+//@ ensures[C06] r0 != nil && r0.SentAt != "" && (r0.MessageType == 1124 || r0.MessageType == 1127) && r0.Timestamp <= 604799999 && r0.Timestamp == code(u2, KBDS) && wholeMs(u2, KBDS) && StepC06(uB, sB, u2, T, KBDS) ==> GoodW(rtcmHandler.startOfBeidouWeek, rtcmHandler.timestampFromPreviousBeidouMessage, KBDS, T, u2, r0.Timestamp, r1, r0.SentAt, r0.StartOfWeek, "Beidou", h0.startOfBeidouWeek.loc, lay)
+//@ ensures[C17] r0 != nil && r0.SentAt != "" && (r0.MessageType == 1124 || r0.MessageType == 1127) && r0.Timestamp <= 604799999 && r0.Timestamp == code(u2, KBDS) && wholeMs(u2, KBDS) && StepC17(uB, sB, u2, T, KBDS) ==> GoodW(rtcmHandler.startOfBeidouWeek, rtcmHandler.timestampFromPreviousBeidouMessage, KBDS, T, u2, r0.Timestamp, r1, r0.SentAt, r0.StartOfWeek, "Beidou", h0.startOfBeidouWeek.loc, lay)
+// GLONASS
+//@ ensures[C06] r0 != nil && r0.SentAt != "" && (r0.MessageType == 1084 || r0.MessageType == 1087) && gloLegal(r0.Timestamp) && r0.Timestamp == codeR(u2) && wholeMs(u2, KGLO) && StepC06(uR, sR, u2, T, KGLO) ==> GoodR(rtcmHandler.startOfGlonassWeek, rtcmHandler.glonassDayFromPreviousMessage, T, u2, r0.Timestamp, r1, r0.SentAt, r0.StartOfWeek, h0.startOfGlonassWeek.loc, lay)
+//@ ensures[C17] r0 != nil && r0.SentAt != "" && (r0.MessageType == 1084 || r0.MessageType == 1087) && gloLegal(r0.Timestamp) && r0.Timestamp == codeR(u2) && wholeMs(u2, KGLO) && StepC17(uR, sR, u2, T, KGLO) ==> GoodR(rtcmHandler.startOfGlonassWeek, rtcmHandler.glonassDayFromPreviousMessage, T, u2, r0.Timestamp, r1, r0.SentAt, r0.StartOfWeek, h0.startOfGlonassWeek.loc, lay)
+// illegal timestamps: an error, and the time state is untouched
+//@ ensures[C06] r0 != nil && r0.SentAt != "" && (r0.MessageType == 1074 || r0.MessageType == 1077 || r0.MessageType == 1094 || r0.MessageType == 1097 || r0.MessageType == 1124 || r0.MessageType == 1127) && r0.Timestamp > 604799999 ==> r1 != nil && r0.ErrorMessage != "" && *rtcmHandler == h0
+//@ ensures[C06] r0 != nil && r0.SentAt != "" && (r0.MessageType == 1084 || r0.MessageType == 1087) && !gloLegal(r0.Timestamp) ==> r1 != nil && r0.ErrorMessage != "" && *rtcmHandler == h0
+// a message of one constellation leaves the state of the others alone
+//@ ensures[C06,C17] r0 == nil || !(r0.MessageType == 1074 || r0.MessageType == 1077) || r0.SentAt == "" ==> rtcmHandler.startOfGPSWeek == h0.startOfGPSWeek && rtcmHandler.timestampFromPreviousGPSMessage == h0.timestampFromPreviousGPSMessage
+//@ ensures[C06,C17] r0 == nil || !(r0.MessageType == 1094 || r0.MessageType == 1097) || r0.SentAt == "" ==> rtcmHandler.startOfGalileoWeek == h0.startOfGalileoWeek && rtcmHandler.timestampFromPreviousGalileoMessage == h0.timestampFromPreviousGalileoMessage
+//@ ensures[C06,C17] r0 == nil || !(r0.MessageType == 1124 || r0.MessageType == 1127) || r0.SentAt == "" ==> rtcmHandler.startOfBeidouWeek == h0.startOfBeidouWeek && rtcmHandler.timestampFromPreviousBeidouMessage == h0.timestampFromPreviousBeidouMessage
+//@ ensures[C06,C17] r0 == nil || !(r0.MessageType == 1084 || r0.MessageType == 1087) || r0.SentAt == "" ==> rtcmHandler.startOfGlonassWeek == h0.startOfGlonassWeek && rtcmHandler.glonassDayFromPreviousMessage == h0.glonassDayFromPreviousMessage
 //@ ensures[C01] r0 != nil && r0.MessageType >= 0 && r1 == nil ==> ValidFrame(r0.RawData) && r0.MessageType == bits(r0.RawData, 24, 12)
 //@ ensures[C01] r0 != nil && r0.MessageType >= 0 && !(len(bitStream) >= 5 && bits(bitStream, 14, 10) == 0) ==> ValidFrame(r0.RawData) && r0.MessageType == bits(r0.RawData, 24, 12)
 //@ ensures[C02] r1 != nil ==> errmsg(r1) != "done"
@@ -40,10 +75,6 @@ package handler
 //@ ensures[C03] ValidFrame(bitStream) ==> r0 != nil && r0.MessageType == bits(bitStream, 24, 12)
 //@ ensures[C03,C12] leaderOK(bitStream) && len(bitStream) <= bits(bitStream, 14, 10) + 6 && !ValidFrame(bitStream) ==> r0 != nil && r0.MessageType == -1
 
-//@ func (Handler).getTimeDisplayFromTimestamp
-//@ ensures[C02] r1 != nil ==> errmsg(r1) != "done"
-
-//@ func (Handler).getStartTimeDisplay
 
 //@ func eatUntilStartOfFrame
 //@ requires[C07] pc != nil && pc.byteChan != nil
@@ -119,7 +150,6 @@ package handler
 //@ ensures[C03] forall(k, n0, sentn(ch_out), SegJunk(I, N, ite(k == n0, s0, stamp(ch_out)[k-1]), stamp(ch_out)[k], sent(ch_out)[k].MessageType) && SegFrame(I, N, ite(k == n0, s0, stamp(ch_out)[k-1]), stamp(ch_out)[k], sent(ch_out)[k].MessageType) && SegTrunc(I, N, ite(k == n0, s0, stamp(ch_out)[k-1]), stamp(ch_out)[k], sent(ch_out)[k].MessageType))
 //@ ensures[C12] forall(k, n0, sentn(ch_out), SegCorrupt(I, N, ite(k == n0, s0, stamp(ch_out)[k-1]), stamp(ch_out)[k], sent(ch_out)[k].MessageType))
 //@ loop 1
-//@ invariant HandlerInv(rtcmHandler)
 //@ invariant pb != nil && fresh(pb) && !closed(ch_out) && sentn(ch_out) >= n0 && pb.byteChan == ch_in
 //@ invariant[C02,C07] pb.cur <= N
 //@ invariant[C02] pb.pbn <= 1
@@ -158,3 +188,84 @@ package handler
 //@ modifies message
 //@ arith wrap
 //@ ensures[C15] message.RawData == old(message.RawData)
+
+// ---- time: C06 (rollovers) and C17 (any start time in the week) ----------------
+// The handler's time state is related to ghost truth: T is the start time, and per
+// constellation u is the true time of the last accepted observation (T before the
+// first) and seen says whether one has been accepted.  GetMessage is one inductive
+// step: if the relation holds before and the frame's timestamp encodes a true time u2
+// satisfying the property's hypotheses, the reported time is u2 and the relation holds
+// for u2 afterwards; every other constellation's state is untouched.
+
+//@ func getUTCFromTimestamp
+//@ requires[C06,C17] isUTC(startOfWeek.loc)
+//@ ensures (rangeError == nil) == (timestamp <= 604799999)
+//@ ensures[C06,C17] rangeError == nil ==> newStartOfWeek.ns == startOfWeek.ns + ite(timestampFromPreviousMessage > timestamp, WEEK, 0) && newStartOfWeek.loc == startOfWeek.loc
+//@ ensures[C06,C17] rangeError == nil ==> timeFromTimestamp.ns == newStartOfWeek.ns + timestamp * MSEC && timeFromTimestamp.loc == startOfWeek.loc
+//@ ensures rangeError != nil ==> newStartOfWeek == startOfWeek
+//@ ensures[C06] rangeError != nil ==> len(errmsg(rangeError)) > 0
+
+//@ func (*Handler).getUTCFromGPSTime
+//@ requires[C07] rtcmHandler != nil
+//@ requires[C06,C17] HandlerInv(rtcmHandler)
+//@ modifies rtcmHandler.startOfGPSWeek, rtcmHandler.timestampFromPreviousGPSMessage
+//@ ensures (r1 == nil) == (timestamp <= 604799999)
+//@ ensures[C06,C17] r1 == nil ==> rtcmHandler.startOfGPSWeek.ns == old(rtcmHandler.startOfGPSWeek.ns) + ite(old(rtcmHandler.timestampFromPreviousGPSMessage) > timestamp, WEEK, 0) && rtcmHandler.timestampFromPreviousGPSMessage == timestamp
+//@ ensures[C06,C17] r1 == nil ==> r0.ns == rtcmHandler.startOfGPSWeek.ns + timestamp * MSEC && r0.loc == old(rtcmHandler.startOfGPSWeek.loc)
+//@ ensures[C06,C17] r1 == nil ==> rtcmHandler.startOfGPSWeek.loc == old(rtcmHandler.startOfGPSWeek.loc)
+//@ ensures[C06] r1 != nil ==> len(errmsg(r1)) > 0
+//@ ensures r1 != nil ==> rtcmHandler.startOfGPSWeek == old(rtcmHandler.startOfGPSWeek) && rtcmHandler.timestampFromPreviousGPSMessage == old(rtcmHandler.timestampFromPreviousGPSMessage)
+
+//@ func (*Handler).getUTCFromGalileoTime
+//@ requires[C07] rtcmHandler != nil
+//@ requires[C06,C17] HandlerInv(rtcmHandler)
+//@ modifies rtcmHandler.startOfGalileoWeek, rtcmHandler.timestampFromPreviousGalileoMessage
+//@ ensures (r1 == nil) == (timestamp <= 604799999)
+//@ ensures[C06,C17] r1 == nil ==> rtcmHandler.startOfGalileoWeek.ns == old(rtcmHandler.startOfGalileoWeek.ns) + ite(old(rtcmHandler.timestampFromPreviousGalileoMessage) > timestamp, WEEK, 0) && rtcmHandler.timestampFromPreviousGalileoMessage == timestamp
+//@ ensures[C06,C17] r1 == nil ==> r0.ns == rtcmHandler.startOfGalileoWeek.ns + timestamp * MSEC && r0.loc == old(rtcmHandler.startOfGalileoWeek.loc)
+//@ ensures[C06,C17] r1 == nil ==> rtcmHandler.startOfGalileoWeek.loc == old(rtcmHandler.startOfGalileoWeek.loc)
+//@ ensures[C06] r1 != nil ==> len(errmsg(r1)) > 0
+//@ ensures r1 != nil ==> rtcmHandler.startOfGalileoWeek == old(rtcmHandler.startOfGalileoWeek) && rtcmHandler.timestampFromPreviousGalileoMessage == old(rtcmHandler.timestampFromPreviousGalileoMessage)
+
+//@ func (*Handler).getUTCFromBeidouTime
+//@ requires[C07] rtcmHandler != nil
+//@ requires[C06,C17] HandlerInv(rtcmHandler)
+//@ modifies rtcmHandler.startOfBeidouWeek, rtcmHandler.timestampFromPreviousBeidouMessage
+//@ ensures (r1 == nil) == (timestamp <= 604799999)
+//@ ensures[C06,C17] r1 == nil ==> rtcmHandler.startOfBeidouWeek.ns == old(rtcmHandler.startOfBeidouWeek.ns) + ite(old(rtcmHandler.timestampFromPreviousBeidouMessage) > timestamp, WEEK, 0) && rtcmHandler.timestampFromPreviousBeidouMessage == timestamp
+//@ ensures[C06,C17] r1 == nil ==> r0.ns == rtcmHandler.startOfBeidouWeek.ns + timestamp * MSEC && r0.loc == old(rtcmHandler.startOfBeidouWeek.loc)
+//@ ensures[C06,C17] r1 == nil ==> rtcmHandler.startOfBeidouWeek.loc == old(rtcmHandler.startOfBeidouWeek.loc)
+//@ ensures[C06] r1 != nil ==> len(errmsg(r1)) > 0
+//@ ensures r1 != nil ==> rtcmHandler.startOfBeidouWeek == old(rtcmHandler.startOfBeidouWeek) && rtcmHandler.timestampFromPreviousBeidouMessage == old(rtcmHandler.timestampFromPreviousBeidouMessage)
+
+// GLONASS: legal iff day <= 6 and milliseconds < 24 h
+//@ define gloDay(ts) = div(ts, 134217728)
+//@ define gloMs(ts) = mod(ts, 134217728)
+//@ define gloLegal(ts) = ts <= 6 * 134217728 + 86399999 && gloMs(ts) < 86400000
+//@ func (*Handler).getUTCFromGlonassTime
+//@ requires[C07] rtcmHandler != nil
+//@ requires HandlerInv(rtcmHandler)
+//@ requires timestamp < 1073741824
+//@ modifies rtcmHandler.startOfGlonassWeek, rtcmHandler.glonassDayFromPreviousMessage
+//@ ensures (r1 == nil) == gloLegal(timestamp)
+//@ ensures[C06,C17] r1 == nil ==> rtcmHandler.startOfGlonassWeek.ns == old(rtcmHandler.startOfGlonassWeek.ns) + ite(gloDay(timestamp) < old(rtcmHandler.glonassDayFromPreviousMessage), WEEK, 0) && rtcmHandler.glonassDayFromPreviousMessage == gloDay(timestamp)
+//@ ensures[C06,C17] r1 == nil ==> r0.ns == rtcmHandler.startOfGlonassWeek.ns + gloDay(timestamp) * DAY + gloMs(timestamp) * MSEC && r0.loc == old(rtcmHandler.startOfGlonassWeek.loc)
+//@ ensures[C06,C17] r1 == nil ==> rtcmHandler.startOfGlonassWeek.loc == old(rtcmHandler.startOfGlonassWeek.loc)
+//@ ensures[C06] r1 != nil ==> len(errmsg(r1)) > 0
+//@ ensures r1 != nil ==> rtcmHandler.startOfGlonassWeek == old(rtcmHandler.startOfGlonassWeek) && rtcmHandler.glonassDayFromPreviousMessage == old(rtcmHandler.glonassDayFromPreviousMessage)
+
+//@ func getStartOfLastSundayUTC
+//@ let t0 = now.ns
+//@ ensures[C06,C17] result.ns == t0 - mod(t0 - SUN0, WEEK) && isUTC(result.loc)
+//@ loop 1
+//@ invariant[C06,C17] isUTC(now.loc) && 0 <= t0 - now.ns && t0 - now.ns <= 6 * DAY && t0 - now.ns == DAY * (mod(div(t0, DAY) + 4, 7) - mod(div(now.ns, DAY) + 4, 7))
+//@ decreases mod(div(now.ns, DAY) + 4, 7)
+
+//@ func New
+//@ let T = startTime.ns
+//@ ensures result != nil && fresh(result)
+//@ ensures[C06,C17] HandlerInv(result)
+//@ ensures[C06,C17] TimeInvW(result.startOfGPSWeek, result.timestampFromPreviousGPSMessage, KGPS, T, T, false) && TimeInvW(result.startOfGalileoWeek, result.timestampFromPreviousGalileoMessage, KGPS, T, T, false)
+//@ ensures[C06,C17] TimeInvW(result.startOfBeidouWeek, result.timestampFromPreviousBeidouMessage, KBDS, T, T, false) && TimeInvR(result.startOfGlonassWeek, result.glonassDayFromPreviousMessage, T, T, false)
+//@ ensures[C06] FirstC06(result.timestampFromPreviousGPSMessage, KGPS, T, false) && FirstC06(result.timestampFromPreviousGalileoMessage, KGPS, T, false) && FirstC06(result.timestampFromPreviousBeidouMessage, KBDS, T, false)
+//@ ensures[C17] FirstC17(result.timestampFromPreviousGPSMessage, false) && FirstC17(result.timestampFromPreviousGalileoMessage, false) && FirstC17(result.timestampFromPreviousBeidouMessage, false)
